@@ -31,7 +31,7 @@ def handle : List String → String
   | ["transfer", dsegs, eof, csegs] =>
     match decLists? dsegs, decLists? csegs with
     | some d, some c =>
-      match readStream d (eof == "T") (c.flatten.length + 1) c with
+      match readStream d (if eof == "T" then .closed else if eof == "R" then .reset else .stillOpen) (c.flatten.length + 1) c with
       | .complete body r => "complete " ++ encList body ++ " " ++ encReply r
       | .stalled => "stalled"
       | .err e => "exc " ++ e.name
